@@ -985,6 +985,11 @@ func (client *client) updateMetadata(data *MetadataResponse, allKnownMetaData bo
 	client.lock.Lock()
 	defer client.lock.Unlock()
 
+	if client.brokers == nil {
+		// Close ran between the check above and taking the lock
+		return
+	}
+
 	// For all the brokers we received:
 	// - if it is a new ID, save it
 	// - if it is an existing ID, but the address we have is stale, discard the old one and save it
